@@ -1257,8 +1257,8 @@ def prepare(ctx):
     """Translator tie (see gen_tie.py): the source of this slice is re-translated to Lean on every run
     (harness/artv/ptrans.py) and proved equal to the model the property theorems are about"""
     from .gen_tie import gen_prepare, extra_theorems
-    from .. import ptrans
-    gen_prepare(ctx, extra_theorems("ptrans"), ptrans.COVERS)
+    from .. import ptrans, xtrans
+    gen_prepare(ctx, extra_theorems("ptrans") + extra_theorems("xtrans"), ptrans.COVERS + "; " + xtrans.COVERS)
 
 def run(ctx):
     ctx.trusted += ["numpy/IEEE division by zero is modelled by `normWithChk` (non-finite = `nf`), not by the field division",
